@@ -3,9 +3,9 @@
 package spec
 
 import (
-	"strconv"
 	"encoding/json"
 	"os"
+	"strconv"
 
 	v1 "k8s.io/api/core/v1"
 	resourceapi "k8s.io/api/resource/v1"
